@@ -430,7 +430,10 @@ impl World {
                     if l.expected_total.is_none() {
                         l.expected_total = Some(total);
                     }
-                    if l.responses >= l.expected_total.unwrap() {
+                    // a response that does not announce further packets ends the exchange whatever
+                        // an earlier packet announced (only a malicious responder mixes the two)
+                        let closes = !matches!(&r.body, v::ResponseBody::Nodes { total, .. } if *total > 1);
+                        if l.responses >= l.expected_total.unwrap() || closes {
                         if l.complete && self.monitors.c04 {
                             self.violate("C04", "a request never gets two terminal outcomes", "double-response", format!("request {k}: more responses than its total"));
                         }
@@ -689,7 +692,7 @@ impl World {
                 let r = self.cfg.workload[*k].clone();
                 let contact = if r.to < self.nodes.len() {
                     let to = &self.nodes[r.to];
-                    if r.with_enr { NodeContact::try_from_enr(to.enr.clone(), IpMode::Ip4).unwrap() } else { NodeContact::new(to.enr.public_key(), to.addr, None) }
+                    if r.with_enr { NodeContact::try_from_enr(to.enr.clone(), if self.cfg.ipv6 { IpMode::Ip6 } else { IpMode::Ip4 }).unwrap() } else { NodeContact::new(to.enr.public_key(), to.addr, None) }
                 } else {
                     let (enr, addr, _) = self.cfg.ghost.clone().expect("ghost peer");
                     if r.with_enr { NodeContact::new(enr.public_key(), addr, Some(enr)) } else { NodeContact::new(enr.public_key(), addr, None) }
@@ -1174,7 +1177,11 @@ impl World {
 
     pub fn fingerprint(&self) -> u128 {
         let idclass = |id: &Vec<u8>| -> i32 { (0..self.cfg.workload.len()).find(|k| workload_id(*k) == *id).map(|k| k as i32).unwrap_or(-1) };
-        let peer = |a: &SocketAddr| -> i32 { self.node_by_addr(a).map(|i| i as i32).unwrap_or(-1) };
+        // peers are named by their literal socket address and node id (both are fixed by the
+        // harness): two parties claiming different ids from one address, or one id seen at two
+        // spellings of an address, are different peers
+        let peer = |a: &SocketAddr| -> String { a.to_string() };
+        let pa = |a: &NodeAddress| -> (String, [u8; 4]) { (a.socket_addr.to_string(), [a.node_id.raw()[0], a.node_id.raw()[1], a.node_id.raw()[2], a.node_id.raw()[3]]) };
         // rank order of all pending deadlines
         let mut deadlines: Vec<Duration> = vec![];
         let snaps: Vec<Option<HandlerSnapshot>> = (0..self.nodes.len()).map(|i| self.snap(i)).collect();
@@ -1193,18 +1200,18 @@ impl World {
             if let Some(s) = s {
                 let age = s.published.elapsed();
                 let timeout = self.cfg.session_timeout;
-                let sessions: Vec<(i32, bool, bool, bool)> = s.sessions.iter().map(|x| (peer(&x.addr.socket_addr), x.old_keys.is_some(), x.awaiting_enr.is_some(), timeout.map(|t| x.idle + age > t).unwrap_or(false))).collect();
-                let mut active: Vec<(i32, i32, bool, bool, u8, Option<u64>, i32)> = s.active_requests.iter().map(|a| (peer(&a.addr.socket_addr), idclass(&a.id), a.handshake_sent, a.initiating_session, a.retries, a.remaining_responses, rank(a.remaining, age))).collect();
+                let sessions: Vec<((String, [u8; 4]), bool, bool, bool)> = s.sessions.iter().map(|x| (pa(&x.addr), x.old_keys.is_some(), x.awaiting_enr.is_some(), timeout.map(|t| x.idle + age > t).unwrap_or(false))).collect();
+                let mut active: Vec<((String, [u8; 4]), i32, bool, bool, u8, Option<u64>, i32)> = s.active_requests.iter().map(|a| (pa(&a.addr), idclass(&a.id), a.handshake_sent, a.initiating_session, a.retries, a.remaining_responses, rank(a.remaining, age))).collect();
                 active.sort();
-                let pending: Vec<(i32, Vec<i32>)> = s.pending_requests.iter().map(|(a, ids)| (peer(&a.socket_addr), ids.iter().map(|(id, _)| idclass(id)).collect())).collect();
-                let challenges: Vec<(i32, bool, i32)> = s.challenges.iter().map(|c| (peer(&c.addr.socket_addr), c.remote_enr_seq.is_some(), rank(c.remaining, age))).collect();
-                let ex: Vec<(i32, usize)> = n.wire.exemptions().iter().map(|(a, c)| (peer(a), *c)).collect();
-                let ways: Vec<i32> = n.way_queries.iter().map(|w| peer(&w.0.socket_addr)).collect();
-                let inbound: Vec<(i32, i32)> = n.inbound.iter().map(|(a, r)| (peer(&a.socket_addr), idclass(&r.id.0))).collect();
+                let pending: Vec<((String, [u8; 4]), Vec<i32>)> = s.pending_requests.iter().map(|(a, ids)| (pa(a), ids.iter().map(|(id, _)| idclass(id)).collect())).collect();
+                let challenges: Vec<((String, [u8; 4]), bool, i32)> = s.challenges.iter().map(|c| (pa(&c.addr), c.remote_enr_seq.is_some(), rank(c.remaining, age))).collect();
+                let ex: Vec<(String, usize)> = n.wire.exemptions().iter().map(|(a, c)| (peer(a), *c)).collect();
+                let ways: Vec<(String, [u8; 4])> = n.way_queries.iter().map(|w| pa(&w.0)).collect();
+                let inbound: Vec<((String, [u8; 4]), i32)> = n.inbound.iter().map(|(a, r)| (pa(a), idclass(&r.id.0))).collect();
                 nodes.push((n.generation, sessions, active, pending, challenges, ex, ways, inbound));
             }
         }
-        let inflight: Vec<(i32, i32, u8, Plain)> = self
+        let inflight: Vec<(String, String, u8, Plain)> = self
             .inflight
             .iter()
             .map(|d| {
